@@ -3,8 +3,8 @@
 EXTENDS Incentive, Json, IOUtils
 
 Rec == ndJsonDeserialize(IOEnv.TRACE)
-VARIABLES l, st, meta, lastClaim, cbs
-vars == <<l, st, meta, lastClaim, cbs>>
+VARIABLES l, st, meta, lastClaim, cbs, wstart
+vars == <<l, st, meta, lastClaim, cbs, wstart>>
 
 Unchanged(ev) == << <<"C11.rejected.unchanged", ev.dpre = ev.dpost>> >>
 Untouched(s, t) ==
@@ -16,9 +16,31 @@ NextCbs(ev, t) == IF ev.ev = "close" /\ ev.res = "ok" THEN TRUE ELSE cbs
 
 Ident(ev) == IF ev.args.lbl = "" THEN [k |-> "id", id |-> ev.args.id, label |-> ""]
              ELSE [k |-> "label", id |-> -1, label |-> ev.args.lbl]
+\* Beyond the listed properties (DESIGN.md): a claim by a staker is refused for good ("Invalid reward", a division by zero)
+\* in the situations MC_Emission.tla exhibits.  Reported under X. names: counted, never a violation.
+RefusalChecks(ev) ==
+  IF ev.ev = "claim" /\ ev.res # "ok"
+  THEN << <<"X.claim.never-refused-as-invalid-reward(no-position-closed-so-far)", ~(ev.out.why = "invalid-reward" /\ ~cbs)>>,
+          <<"X.claim.never-refused-by-a-division-by-zero", ev.out.why # "divide-by-zero">> >>
+  ELSE <<>>
+\* Beyond the listed properties: the share the contract reports for a staker in an epoch ought to be the weight the staker
+\* entered the epoch with over the global weight at the snapshot.  wstart = [aw: the address weights when the epoch began,
+\* gw: the global weight when its snapshot was taken, ep: the epoch of that snapshot].  A staker who has claimed in the
+\* epoch is not looked at (its history up to the epoch is deleted by the claim), nor is any history with a closed position
+\* (known finding S9).
+NextWstart(ev, t) ==
+  IF ev.res # "ok" THEN wstart
+  ELSE IF ev.ev = "newepoch" THEN [wstart EXCEPT !.aw = t.aw]
+  ELSE IF ev.ev = "snapshot" THEN [wstart EXCEPT !.gw = t.gw, !.ep = t.epoch]
+  ELSE wstart
+ShareChecksX(ev, t, lc) ==
+  LET w == NextWstart(ev, t) IN
+  << <<"X.share=weight-at-the-start-of-the-epoch/snapshot",
+        (t.snapshot /\ w.ep = t.epoch /\ ~NextCbs(ev, t) /\ Zero \prec w.gw) =>
+           \A v \in Users : lc[v] = t.epoch \/ t.share[v] = FromRatio(w.aw[v], w.gw)>> >>
 EvChecks(ev, t) ==
   LET u == ev.actor IN
-  (IF ev.res # "ok" THEN Unchanged(ev)
+  (IF ev.res # "ok" THEN Unchanged(ev) \o RefusalChecks(ev)
    ELSE CASE ev.ev = "open" -> OpenChecks(st, t, u, ev.args.recv, ev.args.dur, ev.args.amt, FALSE)
           [] ev.ev = "expand" -> OpenChecks(st, t, u, ev.args.recv, ev.args.dur, ev.args.amt, TRUE)
           [] ev.ev = "close" -> CloseChecks(st, t, u, ev.args.dur)
@@ -31,19 +53,22 @@ EvChecks(ev, t) ==
           [] ev.ev \in {"snapshot", "newepoch"} -> Untouched(st, t)
           [] OTHER -> << <<"TRACE.unknown-event", FALSE>> >>)
   \o StateChecksC11(t) \o StateChecksC12(t) \o StateChecksC13(t) \o SharesChecks(t, NextCbs(ev, t))
+  \o ShareChecksX(ev, t, IF ev.ev = "claim" /\ ev.res = "ok" THEN [lastClaim EXCEPT ![ev.actor] = st.epoch] ELSE lastClaim)
 
 Report(ev, bad) ==
   IF bad = {} THEN TRUE
   ELSE PrintT(ToJson([k |-> "BAD", run |-> ev.run, step |-> IF ev.ev = "reset" THEN -1 ELSE ev.step,
                       line |-> l, ev |-> ev.ev, bad |-> bad]))
-Init == l = 1 /\ st = [lpbal |-> "0"] /\ meta = [fee |-> "0"] /\ lastClaim = [u \in Users |-> -1] /\ cbs = FALSE
+Init == /\ l = 1 /\ st = [lpbal |-> "0"] /\ meta = [fee |-> "0"] /\ lastClaim = [u \in Users |-> -1] /\ cbs = FALSE
+        /\ wstart = [aw |-> [u \in Users |-> Zero], gw |-> Zero, ep |-> -1]
 Next ==
   /\ l <= Len(Rec)
   /\ LET ev == Rec[l] IN
        IF ev.ev = "reset"
-       THEN st' = ev.obs /\ meta' = ev.cfg /\ lastClaim' = [u \in Users |-> -1] /\ cbs' = FALSE
+       THEN /\ st' = ev.obs /\ meta' = ev.cfg /\ lastClaim' = [u \in Users |-> -1] /\ cbs' = FALSE
+            /\ wstart' = [aw |-> ev.obs.aw, gw |-> Zero, ep |-> -1]
        ELSE /\ Report(ev, Failed(EvChecks(ev, ev.obs)))
-            /\ st' = ev.obs /\ meta' = meta /\ cbs' = NextCbs(ev, ev.obs)
+            /\ st' = ev.obs /\ meta' = meta /\ cbs' = NextCbs(ev, ev.obs) /\ wstart' = NextWstart(ev, ev.obs)
             /\ lastClaim' = IF ev.ev = "claim" /\ ev.res = "ok" THEN [lastClaim EXCEPT ![ev.actor] = st.epoch] ELSE lastClaim
   /\ l' = l + 1
 Spec == Init /\ [][Next]_vars
